@@ -69,15 +69,22 @@ class _Lock:
         self.f.close()
 
 
+_REPO_DIRS = ["hydro_lang", "hydro_std", "dfir_lang", "dfir_rs", "dfir_pipes", "dfir_macro", "lattices", "variadics",
+              "sinktools", "hydro_deploy/hydro_deploy_integration", "Cargo.lock"]
+
+
 def _repo_state():
+    """identity of the code under test that can influence these checks: tree hashes of the crates the
+    generated programs are built from + uncommitted changes in them"""
     repo = core.repo_path()
     try:
-        head = subprocess.run(["git", "-C", repo, "rev-parse", "HEAD"], capture_output=True, text=True).stdout.strip()
-        diff = subprocess.run(["git", "-C", repo, "diff", "HEAD", "--", "hydro_lang", "dfir_lang", "dfir_rs", "stageleft"],
+        trees = subprocess.run(["git", "-C", repo, "rev-parse"] + ["HEAD:" + d for d in _REPO_DIRS],
+                               capture_output=True, text=True).stdout
+        diff = subprocess.run(["git", "-C", repo, "diff", "HEAD", "--"] + _REPO_DIRS,
                               capture_output=True, text=True).stdout
     except Exception:
-        head, diff = "?", ""
-    return hashlib.sha1((repo + head + diff).encode()).hexdigest()[:12]
+        trees, diff = "?", ""
+    return hashlib.sha1((repo + trees + diff).encode()).hexdigest()[:12]
 
 
 _ERR_RE = re.compile(r"^(error(?:\[(E\d+)\])?: .*)$")
@@ -199,14 +206,24 @@ def _dump_status(logf):
 
 
 def _msg_class(msg):
-    """stable class of a panic message: source file + first line, numbers and quoted names blanked"""
+    """stable class of a panic message: source file + first line (+ first DFIR `Error:` line for collected
+    diagnostics), numbers blanked"""
     m = re.match(r"panicked at (\S+?):\d+:\d+:\s*(.*)", msg, re.S)
     where, what = (m.group(1), m.group(2)) if m else ("?", msg)
     where = where.split("/src/")[-1]
-    what = what.strip().splitlines()[0] if what.strip() else ""
-    what = re.sub(r"\d+", "N", what)
-    what = re.sub(r"`[^`]*`", "`_`", what)
-    return "%s: %s" % (where, what[:100])
+    lines = [l for l in what.strip().splitlines() if l.strip()]
+    first = lines[0] if lines else ""
+    if "Diagnostics" in first:
+        errs = [l for l in lines[1:] if l.startswith("Error:")]
+        first = first.split("Diagnostics")[0].strip(" .:") + ": " + (errs[0] if errs else "")
+    first = first.split(" Cycle: ")[0]
+    if first.startswith("assertion"):
+        # collection-kind consistency assertions: keep collection kind + bound of both sides
+        sides = re.findall(r"(left|right): (\w+) \{ bound: (\w+)", what)
+        if sides:
+            first += " (" + " vs ".join("%s %s" % (k, b) for _, k, b in sides) + ")"
+    first = re.sub(r"\d+", "N", first)
+    return "%s: %s" % (where, first[:140])
 
 
 def prepare(descs, seed, n, logf, use_cache=True):
@@ -355,8 +372,8 @@ def run_c41(prop, tier, seed, logf, replay):
         descs = g.generate(seed, n)
         judged = 0
         for batch in _batches(descs):
-            verdict, _ = prepare(batch, seed, n, logf)
-            judged += _c41_judge(batch, verdict, viols, counters, opcov, samples, distinct)
+            res = _batch_all(batch, seed, n, tier, logf)
+            judged += _c41_judge(batch, res["verdict"], viols, counters, opcov, samples, distinct)
         bugs = counters.get("programs_generator_bug", 0) + counters.get("programs_driver_bug", 0) + \
             counters.get("programs_missing", 0)
         min_fail = []
@@ -386,13 +403,13 @@ RULE_C42 = ("For every generated Hydro program (same grammar as C41) the product
             "whose generation succeeded.")
 
 
-def _c42_run(descs, seed, n, logf, nproc, viols, samples, distinct, counters, use_cache=True):
-    verdict, st = prepare(descs, seed, n, logf, use_cache=use_cache)
+def _c42_emit(descs, verdict, st, logf, nproc):
+    """run the generator executable in `nproc` separate processes; returns per program
+    {"hashes": [[h1, h2] per process], "diff": first differing line}"""
     info = st["build_info"]
     root = os.path.join(core.BUILD, "hydro-gen-c42", str(os.getpid()))
     shutil.rmtree(root, ignore_errors=True)
-    results = []
-    procs = []
+    results, procs = [], []
     for i in range(nproc):
         od = os.path.join(root, str(i))
         os.makedirs(od)
@@ -412,51 +429,98 @@ def _c42_run(descs, seed, n, logf, nproc, viols, samples, distinct, counters, us
         if p.returncode != 0 or not os.path.exists(f):
             raise core.Inconclusive("C42 emitter process failed rc=%s (see %s)" % (p.returncode, logf))
         results.append((od, json.load(open(f))))
-    evals = 0
+    out = {}
     for d in descs:
-        if verdict.get(d["name"], {}).get("cls") not in ("ok", "driver_bug"):
-            counters["programs_not_generated"] = counters.get("programs_not_generated", 0) + 1
-            continue
         name = d["name"]
+        if verdict.get(name, {}).get("cls") != "ok":
+            continue
         hashes = []
         for od, r in results:
             e = r.get(name)
-            hashes.append(tuple(e[:2]) if e else ("missing", "missing"))
+            hashes.append([str(x) for x in e[:2]] if e else ["missing", "missing"])
+        flat = [h for pair in hashes for h in pair] + [verdict[name]["code_hash"]]
+        diff = ""
+        if len(set(flat)) != 1:
+            texts = []
+            for od, _ in results:
+                for fn in (name + ".rs", name + ".second.rs"):
+                    p = os.path.join(od, fn)
+                    if os.path.exists(p):
+                        texts.append(open(p).read().splitlines())
+            base = texts[0] if texts else []
+            for t in texts[1:]:
+                for k, (x, y) in enumerate(zip(base, t)):
+                    if x != y:
+                        diff = "line %d: %r vs %r" % (k + 1, x[:160], y[:160])
+                        break
+                if diff:
+                    break
+        out[name] = {"hashes": hashes, "diff": diff}
+    shutil.rmtree(root, ignore_errors=True)
+    return out
+
+
+def _c42_judge(descs, verdict, emitted, viols, samples, distinct, counters):
+    evals = 0
+    for d in descs:
+        name = d["name"]
+        if verdict.get(name, {}).get("cls") != "ok" or name not in emitted:
+            counters["programs_not_generated"] = counters.get("programs_not_generated", 0) + 1
+            continue
+        hashes = emitted[name]["hashes"]
         evals += 1
-        counters["generator_runs"] = counters.get("generator_runs", 0) + 2 * len(results) + 1
+        counters["generator_runs"] = counters.get("generator_runs", 0) + 2 * len(hashes) + 1
         if len(d["distinct_ops"]) >= 3:
             distinct.add(d["text_hash"])
         flat = [h for pair in hashes for h in pair] + [verdict[name]["code_hash"]]
         if len(set(flat)) == 1:
             counters["programs_identical"] = counters.get("programs_identical", 0) + 1
+            if d["nprocs"] > 1:
+                counters["identical_multi_location"] = counters.get("identical_multi_location", 0) + 1
             if len(samples) < 6:
                 samples.append({"program": name, "code_hash": flat[0], "ops": d["distinct_ops"], "runs": len(flat)})
             continue
         inproc = any(a != b for a, b in hashes)
         kind = "within one process" if inproc else "between processes"
-        # first differing line, for the report
-        diff = ""
-        texts = []
-        for od, _ in results:
-            for fn in (name + ".rs", name + ".second.rs"):
-                p = os.path.join(od, fn)
-                if os.path.exists(p):
-                    texts.append(open(p).read().splitlines())
-        base = texts[0] if texts else []
-        for t in texts[1:]:
-            for k, (a, b) in enumerate(zip(base, t)):
-                if a != b:
-                    diff = "line %d: %r vs %r" % (k + 1, a[:160], b[:160])
-                    break
-            if diff:
-                break
         viols.append({"t": "violation", "prop": "C42",
                       "sig": "C42|generate_embedded|generated code differs " + kind,
                       "what": "program %s: hashes per process (run1, run2) = %s, build-time = %s; %s"
-                              % (name, hashes, verdict[name]["code_hash"], diff),
-                      "case": _case("C42", d, {"observed": {"hashes": hashes, "first_difference": diff}})})
-    shutil.rmtree(root, ignore_errors=True)
+                              % (name, hashes, verdict[name]["code_hash"], emitted[name]["diff"]),
+                      "case": _case("C42", d, {"observed": emitted[name]})})
     return evals
+
+
+def _batch_all(batch, seed, n, tier, logf, use_cache=True, want=("c28", "c42")):
+    """Everything the three properties need from one batch of programs, from ONE build: per-program
+    verdicts (C41), the C28 run of the binary, the C42 emitter runs. Cached on disk (keyed by programs,
+    tier, seed, generator version and the state of the repository under test) so that whichever of the
+    three checks runs first pays for the build and the others reuse its observations."""
+    key = hashlib.sha1(json.dumps(["all", seed, n, tier, _gen().GEN_VERSION, _repo_state(),
+                                   [d["text_hash"] for d in batch]]).encode()).hexdigest()[:16]
+    cdir = os.path.join(core.BUILD, "hydro-gen-cache")
+    os.makedirs(cdir, exist_ok=True)
+    cfile = os.path.join(cdir, key + ".all.json")
+    if use_cache and os.path.exists(cfile):
+        with open(logf, "a") as lf:
+            lf.write("\n[drv_gen] reusing observations of this batch from %s\n" % cfile)
+        return json.load(open(cfile))
+    verdict, st = prepare(batch, seed, n, logf, use_cache=use_cache)
+    res = {"verdict": verdict, "c28_out": None, "c42": None}
+    wsdir, _ = core.workspace_dir("hydro")
+    exe = core.bin_path("hydro", "hv_gen_emb")
+    if "c28" in want:
+        rc, out = core.run_logged([exe, "--prop", "C28", "--tier", tier, "--seed", str(seed)], wsdir,
+                                  core.base_env(), logf, 3600)
+        with open(logf, "a") as lf:
+            lf.write(out[-20000:])
+        res["c28_out"] = out
+        res["c28_rc"] = rc
+    if "c42" in want:
+        res["c42"] = _c42_emit(batch, verdict, st, logf, 3)
+    if use_cache:
+        json.dump(res, open(cfile + ".tmp", "w"))
+        os.replace(cfile + ".tmp", cfile)
+    return res
 
 
 def run_c42(prop, tier, seed, logf, replay):
@@ -467,17 +531,21 @@ def run_c42(prop, tier, seed, logf, replay):
             case, descs = _replay_descs(replay, prop)
             if descs is None:
                 return [], []
-            _c42_run(descs, case["desc"].get("gen", {}).get("seed", 0), 1, logf, 6, viols, samples, distinct, counters,
-                     use_cache=False)
+            verdict, st = prepare(descs, case["desc"].get("gen", {}).get("seed", 0), 1, logf, use_cache=False)
+            emitted = _c42_emit(descs, verdict, st, logf, 6)
+            _c42_judge(descs, verdict, emitted, viols, samples, distinct, counters)
             return [], viols
         n = N_PROGRAMS[tier]
         descs = g.generate(seed, n)
         evals = 0
         for batch in _batches(descs):
-            evals += _c42_run(batch, seed, n, logf, 3, viols, samples, distinct, counters)
+            res = _batch_all(batch, seed, n, tier, logf)
+            evals += _c42_judge(batch, res["verdict"], res["c42"], viols, samples, distinct, counters)
         min_fail = []
         if evals < 0.8 * n:
             min_fail.append("only %d of %d generated programs reached the comparison" % (evals, n))
+        if counters.get("identical_multi_location", 0) + len(viols) < 1:
+            min_fail.append("no multi-location program was compared")
         extra = {"counters": counters, "processes": 3, "programs_generated": n}
         return [_summary("C42", evals, len(distinct), RULE_C42, samples, extra, min_fail, len(viols), "hydro-codegen")], viols
 
@@ -503,19 +571,16 @@ def run_c28(prop, tier, seed, logf, replay):
         descs = g.generate(seed, n)
         summaries, viols = [], []
         for bi, batch in enumerate(_batches(descs)):
-            prepare(batch, seed, n, logf)
-            rc, out = core.run_logged([exe, "--prop", "C28", "--tier", tier, "--seed", str(seed)], wsdir,
-                                      core.base_env(), logf, 3600)
-            with open(logf, "a") as lf:
-                lf.write(out[-20000:])
-            s, v = core.parse_lines(out)
+            res = _batch_all(batch, seed, n, tier, logf)
+            out, rc = res["c28_out"], res.get("c28_rc", 0)
+            sm, v = core.parse_lines(out)
             if rc != 0 and not v:
                 raise core.Inconclusive("hv_gen_emb --prop C28 exited rc=%d (see %s)" % (rc, logf))
-            if not s:
+            if not sm:
                 raise core.Inconclusive("hv_gen_emb --prop C28 printed no summary (see %s)" % logf)
-            for x in s:
+            for x in sm:
                 x["stage"] = "generated" if len(descs) <= BATCH else "generated-batch%d" % bi
                 x["engine"] = "hv_gen_emb"
-            summaries += s
+            summaries += sm
             viols += v
         return summaries, viols
